@@ -15,6 +15,8 @@ ROOT = os.path.dirname(os.path.abspath(__file__))
 HS = os.path.join(ROOT, "target", "release", "hs")
 SCRATCH = os.path.join(ROOT, "target", "scratch")
 CORES = int(os.environ.get("VERIF_CORES", "16"))
+# second opinion (fresh context per query) on every obligation the primary solver reports as proved
+SOLVER2 = shutil.which("z3-new") and "z3-new"
 
 sys.path.insert(0, ROOT)
 
@@ -62,6 +64,8 @@ def run_job(job, tier, seed, outdir):
         cmd += ["--witnesses", str(job["xproc"])]
     if job.get("closure", True):
         cmd += ["--closure"]
+    if SOLVER2 and job.get("solver2", True):
+        cmd += ["--solver2", SOLVER2]
     if job.get("probe"):
         # budgeted bug-hunting run on an instance that cannot close: spread the explored paths (seeded)
         cmd += ["--random-pop", str(1 + seed)]
@@ -202,6 +206,7 @@ def main():
     per_h, functions, locations, samples, assumptions = [], set(), set(), [], set()
     agg_x = dict(witnesses=0, processes=0)
     closure = dict(proved=0, failed=0, unknown=0, skipped=0)
+    second = dict(asked=0, skipped=0, disagreements=0)
     all_exh = True
     for r in results:
         job = r["job"]
@@ -230,6 +235,9 @@ def main():
         closure[ckey] += 1
         if ckey == "failed":
             inconclusive.append("%s: closure check failed - the explorer missed a path: %s" % (label, cl))
+        second["asked"] += rep.get("second_opinions", 0)
+        second["skipped"] += rep.get("second_opinion_skipped", 0)
+        second["disagreements"] += len(rep.get("solver_disagreements", []))
         if rep["witness_mismatch"]:
             inconclusive.append("%s: symbolic shadow and native execution disagree on %d path witnesses: %s" % (label, rep["witness_mismatch"], rep["notes"][:1]))
         if rep["inexact"] and "inexact" not in allow:
@@ -326,6 +334,7 @@ def main():
             excluded_paths=dict(assume_rejected_runs=agg["assume_rejected_runs"], div_by_zero=agg["div0_paths"], sqrt_negative=agg["sqrt_neg_paths"]),
             pending_work_items=agg["pending_work"], diverged_runs=agg["diverged_runs"],
             harnesses=per_h, known_findings_seen=sorted(seen_known), inconclusive=inconclusive[:10],
+            second_solver=dict(second, solver=SOLVER2 or "none", note="every path whose obligations the primary solver (z3 4.8.12, incremental within one run) reports as proved is re-asked, self-contained and in a fresh context, to a second solver (z3 5.1); a model from the second solver is treated as a counterexample candidate and replayed natively; skipped for path conditions with sqrt / uninterpreted terms"),
             closure_check=dict(closure, note="per harness run that closed: fresh solver proves domain /\\ not(pc_1 \\/ ... \\/ pc_n) unsat, i.e. every input of the domain follows an explored path; skipped for runs that did not close, whose path conditions mention sqrt / uninterpreted terms, or whose input variables differ between paths"),
             cross_process_replays=dict(path_witnesses=agg_x["witnesses"], fresh_processes=agg_x["processes"], note="native f64 re-execution of path witnesses in fresh processes (new SipHash keys) under rayon pools of 1, 8 and 3 threads; outputs compared bit for bit with the exploration's"),
         ),
